@@ -47,13 +47,15 @@ def replay(case) -> dict:
     R1 = Rotation.from_matrix(np.array([cfg["R"]], dtype=float))
     p1 = np.array(cfg["p"], dtype=float) / 2.0 * scale
     p2 = np.array(case["p_second"], dtype=float) / 2.0 * scale
+    p1_0, p2_0 = p1.copy(), p2.copy()
     desc = dict(shape=list(shape), even=[n % 2 == 0 for n in shape], second=cfg["second"], order=cfg["order"], scale=scale,
                 rotated=cfg["R"] != [[1, 0, 0], [0, 1, 0], [0, 0, 1]], p=cfg["p"])
     fails = []
     want = _expected(tshape, tmpl, [case["paste1"]] + ([case["paste2"]] if cfg["second"] != "none" else []))
 
-    def build(order_flip=False):
+    def build(order_flip=False, dz=0.0):
         sim = TomogramSimulator(order=cfg["order"], scale=scale)
+        p1, p2 = p1_0 + np.array([dz, 0.0, 0.0]), p2_0 + np.array([dz, 0.0, 0.0])
         m1 = Molecules(p1[None, :], R1)
         comps = []
         if cfg["second"] == "same_component":
@@ -98,6 +100,13 @@ def replay(case) -> dict:
         proj = np.asarray(engine.api(sim.simulate_2d, tshape[1:]), dtype=np.float64)
         if proj.shape != tshape[1:] or float(np.max(np.abs(proj - want.sum(axis=0)))) > 5e-3:
             fails.append(dict(desc, clause="Projection2D", maxerr=float(np.max(np.abs(proj - want.sum(axis=0)))) if proj.shape == tshape[1:] else None))
+    # a projection along z does not depend on how high the molecules sit: lifting every molecule by 40 pixels (any scale)
+    # changes nothing, provided they are entirely above z = 0 before
+    if all(z - (max(shape) - 1) / 2 - 1 >= 0 for z in zs):
+        lo = np.asarray(engine.api(sim.simulate_2d, tshape[1:]), dtype=np.float64)
+        hi = np.asarray(engine.api(build(dz=40.0 * scale).simulate_2d, tshape[1:]), dtype=np.float64)
+        if lo.shape != hi.shape or float(np.max(np.abs(lo - hi))) > 5e-3:
+            fails.append(dict(desc, clause="Projection2DIndependentOfHeight", maxerr=float(np.max(np.abs(lo - hi))) if lo.shape == hi.shape else None))
     return dict(failures=fails, classes={("interior" if inside else "clipped_or_outside"): 1})
 
 
